@@ -1086,3 +1086,4 @@ LEVEL_NOTE = ("Trusted: Lean kernel, axioms <= {propext, Quot.sound} (audited ea
     " Known finding K12 (a copy into the copied node's own subtree through a missing intermediate contains that intermediate) lies in the excluded 'destination inside the addressed subtree' corner and is replayed separately on every run.")
 TECHNIQUE = ("Lean 4 proof (entry-list filter lemmas for modify/remove/append/grow/relabel on name-addressed rose trees; fold law for the "
              "pair loop) + correspondence check against shift_nodes / copy_nodes / shift_and_replace_nodes / the tree-to-tree variants")
+RULE = RULE + ' Fifth session: a parent with 130 children in multi-pair calls (count-preserving exchange of children, then a missing intermediate named like the departed child); theorems find_full_path_printed_multi / comps_printed_multi (separators of any length).'
